@@ -1,5 +1,5 @@
 """C02: structural facts of the request framework of CompaSOHaloCatalog that the hand-written model
-(coq/theories/C02/Model.v) is parametrised by.  The loader table itself is tools/gen/c05.py (C05/Gen.v).
+(coq/theories/C02/Model.v) is parametrised by.  The loader table itself is tools/gen/c05.py (HaloTable/Gen.v).
 
 Sites (by role, fail closed):
   * _read_halo_info, the loop `for <f> in extra_fields:` allocating the per-file temporary columns:
